@@ -280,6 +280,10 @@ func runC19(p *core.Prog, r *core.Report) {
 		for f := range reachableFrom(p, fn) {
 			sx.Instrs(f, func(in ssa.Instruction) {
 				switch x := in.(type) {
+				case *ssa.UnOp:
+					if x.Op == token.ARROW {
+						r.Fail("C19-R2", "receive in "+fnName(f)+" reachable from "+name, p.Pos(in.Pos()), "a blocking channel receive is reachable from "+name+": the writer can stall (e.g. draining its own progress channel after the consumer already took the value)")
+					}
 				case *ssa.Send:
 					r.Fail("C19-R2", "send in "+fnName(f)+" reachable from "+name, p.Pos(in.Pos()), "a blocking channel send is reachable from "+name+": the writer would stall when nobody receives")
 				case *ssa.Select:
